@@ -7,7 +7,7 @@ from . import core
 CHECKS = {
     "C13": dict(
         technique="runtime monitoring: exhaustive operator/value matrix executed through run_checks, judged by a Python reference oracle",
-        text="Every ordered pair of a 40-value universe x 5 comparison operators x both polarities x query/literal RHS, the in-list, "
+        text="Every ordered pair of a 46-value universe x 5 comparison operators x both polarities x {query RHS, literal RHS, literal-bound variable as LHS}, the in-list, "
              "range-bracket and regex forms are executed against the real evaluator and each verdict is compared with Python "
              "semantics on the model values. Exhaustive on that finite universe; says nothing outside it.",
         note="Trusts: Python int/float/str comparison and re.search as the reference; json round trip of the universe. "
@@ -39,7 +39,7 @@ CHECKS["C02"] = dict(
 
 CHECKS["C04"] = dict(
     technique="runtime monitoring: metamorphic order/repetition monitor with hook-observed memoisation histories",
-    text="Random base programs that share variables and named references are evaluated together with up to ~25 order/repetition "
+    text="Random base programs that share variables and named references (30% with an alternative, `when`-guarded definition of a rule name) are evaluated together with up to ~25 order/repetition "
          "transforms each (all permutations of small rule bodies and rule orders, shuffled alternatives, duplicated lines, alternatives "
          "and rules, early/late references) on 2-3 documents; rule->status maps must agree. The verif-hooks event stream shows "
          "how many distinct variable-resolution orders and rule-status hit/miss patterns were actually exercised.",
@@ -70,18 +70,20 @@ CHECKS["C06"] = dict(
     text="The shipped binary is run as real processes on scenarios built from finite classes (1..3 rules files from 7 kinds x 1..3 data "
          "files from 5 kinds, every position, x 12 invocation modes incl. payload, stdin, directories, structured json/yaml/junit/sarif; "
          "`test` scenarios x 4 formats x 3 layouts - files, directory, directory with 2-3 rules files and the scenario file at each position); the exit status must fall in the class a 30-line classifier derives from what the "
-         "generator built (per-pair verdicts confirmed by singleton library runs); in-process results must agree with process exits.",
+         "generator built (per-pair verdicts confirmed by singleton library runs); in-process results must agree with process exits; "
+         "missing paths and unusable option combinations must give an error exit, never 0 or 19.",
     note="Trusts singleton run_checks verdicts for pair classification and PyYAML for deciding that a 'malformed' sample really is malformed. "
          "Crash exits are inconclusive here (C08 owns them).",
     ref="DESIGN.md §6 P-C06")
 
 CHECKS["C05"] = dict(
     technique="runtime monitoring: repeated-execution differential monitor (fresh processes, rotated environments, in-process repetition)",
-    text="22 command/output modes (validate structured json/yaml/sarif/junit, plain json/yaml, print-json, console variants, parse-tree, test in "
+    text="24 command/output modes (validate structured json/yaml/sarif/junit, plain json/yaml, print-json, console variants, parse-tree, test in "
          "4 renderings, rulegen, and 4 modes of function rules: parse_epoch over 12 timestamp spellings incl. zone-less and DST-gap ones, case mapping, "
-         "conversions, join/regex_replace) are each run 5 (quick) / 8 (thorough) times as fresh processes of the shipped binary - fresh hash seeds - under "
+         "conversions, join/regex_replace; 2 console modes on Terraform-plan-shaped data) are each run 5 (quick) / 8 (thorough) times as fresh processes of the shipped binary - fresh hash seeds - under "
          "rotated TZ (tzdata names and POSIX strings)/LANG/HOME/COLUMNS/NO_COLOR/RUST_BACKTRACE/cwd/pipe-vs-file, and payload modes 5 times inside one process; exit codes must be "
-         "equal, structured output byte-identical (elapsed-time fields masked), console output equal as a multiset of lines.",
+         "equal, structured output byte-identical (elapsed-time fields masked), console output equal as a multiset of lines; what a structured "
+         "json/yaml/junit/sarif batch says about one data file must equal what the run on that file alone says (nothing evaluated earlier in the process).",
     note="A random ordering of k items escapes N runs with probability (1/k!)^(N-1); inputs have >=3 rules/files per collection. Environment rotation is a sample, not all environments.",
     ref="DESIGN.md §6 P-C05")
 
@@ -109,7 +111,7 @@ CHECKS["C12"] = dict(
     technique="runtime monitoring: batch-vs-singleton differential monitor with hook-observed scope lifetimes",
     text="Batches of 1-3 rules files that share variable and rule names with different definitions x 2-4 documents differing exactly in the "
          "queried keys are validated as explicit files in several orders (plain and structured), as directories with -a and -m (explicit mtimes), "
-         "as payload lists, as structured junit and sarif batches (per-data-file testsuite / result units vs the stand-alone run), and as multi-case `test` files; every (rules, data) pair's report must equal the report of the pair validated alone and "
+         "as payload lists (half of the batches with an --input-parameters document read by every rules file), as structured junit and sarif batches (per-data-file testsuite / result units vs the stand-alone run), and as multi-case `test` files; every (rules, data) pair's report must equal the report of the pair validated alone and "
          "the exit status must be the maximum over the pairs. verif-hooks events assert one root scope per pair and no memo hit before a miss in a scope.",
     note="Reports are compared after removing file names and line/column details. In structured mode compliant/not_applicable are name sets by design.",
     ref="DESIGN.md §6 P-C12")
@@ -117,16 +119,16 @@ CHECKS["C12"] = dict(
 CHECKS["C16"] = dict(
     technique="runtime monitoring: differential monitor between the `test` and `validate` front ends over enumerated expectation assignments",
     text="Generated rules files (45% with a doubly defined rule name, 40% with file-level clauses = the `default` rule) x 1-4 documents x all 3^k expectation assignments (k<=3) incl. rules without "
-         "expectation are run through `test` in plain/json/yaml/junit rendering and files/--dir layout; each (case, rule) outcome (met / unmet / no "
+         "expectation are run through `test` in plain/json/yaml/junit rendering and files/--dir layout (tests files under every extension the directory walk accepts, -a/-m ordering); each (case, rule) outcome (met / unmet / no "
          "expectation), the evaluated statuses of unmet expectations and the exit code 0/7 must follow from the statuses `validate --print-json` "
-         "assigns to that rule on the same input, and all renderings must carry the same relation.",
+         "assigns to that rule on the same input, and all renderings must carry the same relation; every JUnit failures=/errors= attribute must equal the number of <failure>/<error> elements below it.",
     note="validate's print-json record is the reference for per-definition statuses. Output order is C05's concern, relations are compared as sets.",
     ref="DESIGN.md §6 P-C16")
 
 CHECKS["C17"] = dict(
     technique="runtime monitoring: differential monitor against the pre-merged document, over all -i orders and modes",
     text="Documents are split at random into data + 1-3 parameter files (JSON/YAML, differing sizes; flat names, the same base name in different "
-         "directories, or one directory given to -i); validating with -i in every order, in plain and "
+         "directories, or one directory given to -i, with stray non-data files in it); validating with -i in every order, in plain and "
          "structured mode, with one or two data files and in payload mode must give the verdicts and exit class of validating the pre-merged document; "
          "rules read keys by name and iterate the merged root map (`this.*`, `[ keys == | in | regex ]`); a deliberately overlapping key (param/param, "
          "data/param) must produce an error exit without a verdict - not a crash, not a silent choice - in both modes.",
@@ -136,7 +138,7 @@ CHECKS["C17"] = dict(
 CHECKS["C19"] = dict(
     technique="runtime monitoring: round-trip monitor (rulegen -> parse-tree -> validate on the source and on a mutated template)",
     text="Generated CloudFormation-shaped templates (1-5 resources over 1-3 types; plain and 17 classes of odd strings, ints incl. 2^53+1 and i64::MIN, floats (fraction / integral / exponent), bools, nested "
-         "lists/maps; repeated and distinct values; uniform and non-uniform property sets) are fed to `rulegen` as a real process (twice); unless an "
+         "lists/maps; repeated, re-typed (50 vs \"50\") and distinct values; uniform and non-uniform property sets) are fed to `rulegen` as a real process (twice); unless an "
          "error is reported the output must parse to exactly one rule per resource type with properties, every rule must PASS on the source "
          "template, and the rule of a type must FAIL after one scalar property value is changed to an unseen value.",
     note="A rulegen crash is C08's concern (inconclusive here). Failing self-validations are attributed to value classes so that the two known findings stay narrow.",
@@ -178,7 +180,7 @@ CHECKS["C08"] = dict(
     text="Mutated rule texts, 33 adversarial but grammatical program shapes (filters after this/index/filter/keys, literal and function LHS, unary "
          "operators on literals, mismatched/empty/unresolved function arguments, huge indices, self/mutual/when recursion, duplicate-name cycles, odd custom messages, wrong arity, backtracking "
          "regexes, multi-byte substrings ...), generated programs with all features on, and 24 hostile documents plus mutated ones (as data, parameter file, "
-         "test spec, payload envelope) are run through validate (files, payload, structured), test, parse-tree, rulegen (real processes, non-UTF-8 files) and "
+         "test spec, payload envelope), CloudFormation- and Terraform-plan-shaped documents (template-aware console views) and ~60 omitted/conflicting/unsupported argument combinations are run through validate (files, payload, structured), test, parse-tree, rulegen (real processes, non-UTF-8 files) and "
          "run_checks. The worker captures panics with file:line, the orchestrator attributes process deaths and watchdog expiries to the running job; rejected "
          "rules files must name line and column and evaluate nothing; valgrind memcheck watches the libyaml loader, payload and FFI paths. A second worker "
          "compiled with overflow checks runs the same front ends and, as a crash sweep, the quick workloads of C18 and C13 (thorough: also C01, C03, C10, C15, C11, C17).",
